@@ -41,8 +41,10 @@ type driver struct {
 	invites []*inviteSpec
 	aborted bool
 	dead    bool // the session ended under the script: nothing more can be judged
-	// malformedSent counts foreign presences with undecodable payloads
-	malformedSent int
+	// malformedSent counts foreign presences with undecodable payloads,
+	// malformedPending those after which no barrier has been answered yet
+	malformedSent    int
+	malformedPending int
 }
 
 func (d *driver) addr(room int) string { return d.mc.Rooms[room-1] }
@@ -61,10 +63,11 @@ func (d *driver) sessionEnded() {
 		d.c.Notef("Serve returned %v", err)
 		return
 	}
-	if d.malformedSent > 0 {
+	if d.malformedPending > 0 {
+		// (no barrier has been answered since the last of them was sent)
 		// presences for addresses that were never joined are to be ignored,
 		// whatever they carry
-		d.c.Violate("muc:foreign:malformed-payload-ends-session", "after %d presence(s) with an undecodable muc#user payload from addresses that are not ours (another occupant / a room never joined) the session ended: Serve returned %v", d.malformedSent, err)
+		d.c.Violate("muc:foreign:malformed-payload-ends-session", "after %d presence(s) with an undecodable muc#user payload from addresses that are not ours (another occupant / a room never joined) the session ended: Serve returned %v", d.malformedPending, err)
 		return
 	}
 	d.c.Violate("muc:session-ended", "the session ended in the middle of the script: Serve returned %v", err)
@@ -235,6 +238,7 @@ func (d *driver) barrier() bool {
 		}
 	}
 	d.c.Count("barriers", 1)
+	d.malformedPending = 0
 	// sample membership of every occupant that has a channel and no call in flight
 	var addrs []string
 	for a := range d.chans {
@@ -346,9 +350,11 @@ func (d *driver) exec(st step) {
 	case "foreign-malformed":
 		w.foreignMalformed("neverjoined@chat.example.net/somebody", []string{"", "unavailable"}[st.N%2], st.N/2)
 		d.malformedSent++
+		d.malformedPending++
 	case "other-malformed":
 		w.foreignMalformed(strings.SplitN(d.addr(st.Room), "/", 2)[0]+"/secondwitch", []string{"", "unavailable"}[st.N%2], st.N/2)
 		d.malformedSent++
+		d.malformedPending++
 	case "foreign":
 		w.presenceItem("neverjoined@chat.example.net/somebody", "", "", false, st.Aff, st.Role, codes(st, 110)...)
 	case "foreign-unavailable":
